@@ -588,6 +588,32 @@ func c16Relabelled(c *fw.Case) {
 		if typ == gen.Ed25519 {
 			jwsutil.GetED25519PublicKey(jwk)
 		}
+		if typ != gen.Ed25519 {
+			// the same point with a coordinate written at another width (a zero octet in front, a leading zero octet dropped, an octet
+			// appended) is a JWK of the wrong width: the genuine signature does not verify under it
+			xb, yb := k.XY()
+			wrong := map[string][2][]byte{"x-zero-extended": {append([]byte{0}, xb...), yb}, "y-zero-extended": {xb, append([]byte{0, 0}, yb...)}, "x-octet-appended": {append(append([]byte{}, xb...), 0x5a), yb}}
+			if xb[0] == 0 {
+				wrong["x-leading-zero-dropped"] = [2][]byte{xb[1:], yb}
+			}
+			if yb[0] == 0 {
+				wrong["y-leading-zero-dropped"] = [2][]byte{xb, yb[1:]}
+			}
+			for _, name := range []string{"x-zero-extended", "y-zero-extended", "x-octet-appended", "x-leading-zero-dropped", "y-leading-zero-dropped"} {
+				xy, ok := wrong[name]
+				if !ok {
+					continue
+				}
+				wj := *jwk
+				wj.X, wj.Y = oracle.B64(xy[0]), oracle.B64(xy[1])
+				c.Count("wrong-width-jwk-with-genuine-signature", 1)
+				c.Evals(1)
+				if err := jwsutil.VerifySignature(&wj, sig, msg); err == nil {
+					c.Failf("bad-jwk-verifies:"+name, map[string]interface{}{"genuine_jwk": k.JWK(), "wrong_width_jwk": map[string]interface{}{"kty": wj.Kty, "crv": wj.Crv, "x": wj.X, "y": wj.Y}, "mutation": name},
+						"a genuine %s signature verifies under the key's JWK with %s", typ, name)
+				}
+			}
+		}
 		c2, _ := commitment.GetCommitment(jwk, 18)
 		if *jwk != before || c1 != c2 {
 			c.Failf("jwk-changed-by-reading", map[string]interface{}{"jwk_before": before, "jwk_after": *jwk, "commitment_before": c1, "commitment_after": c2},
